@@ -119,7 +119,14 @@ func r3C04(c *Ctx) {
 				return f.Op == "==" && (f.L.Any(MCall("RolloutStrategy.GetRollingStyle")) || f.R.Any(MCall("RolloutStrategy.GetRollingStyle"))) && (strings.Contains(f.L.String()+f.R.String(), "BlueGreen") || strings.Contains(f.L.String()+f.R.String(), "bluegreen"))
 			})
 			kind := HasFact(fs, FCmp("==", MField("Kind"), MAny()))
-			ok2 := empty || bg || kind
+			canary := HasFact(fs, func(f Fact) bool {
+				return f.Op == "==" && (f.L.Any(MCall("RolloutStrategy.GetRollingStyle")) || f.R.Any(MCall("RolloutStrategy.GetRollingStyle"))) && strings.Contains(strings.ToLower(f.L.String()+f.R.String()), "`canary`")
+			})
+			ok2 := empty || bg || (kind && canary)
+			if kind && !canary {
+				c.Ob("R4.5b", "IsRealPartition#return(false)", ret.Pos(), false, "not-partition for a kind-checked workload only in canary style", "this `return false` depends on the workload kind but not on the rolling style being canary: a native Deployment released in partition style (in place, by the advanced-deployment controller) is then treated like one with an extra canary workload — the stable Service stays pinned while all of its pods are replaced").WithFacts(fs)
+				continue
+			}
 			c.Ob("R4.5b", "IsRealPartition#return(false)", ret.Pos(), ok2, "not-partition is answered for an empty strategy, blue-green, or a workload whose kind was compared", ifs(!ok2, "this `return false` does not depend on the workload kind: StatefulSet / CloneSet / DaemonSet rollouts converted from v1alpha1 (enableExtraWorkloadForCanary=true) are then treated like a canary Deployment, the stable Service stays pinned while every pod is replaced")).WithFacts(fs)
 		}
 	}
